@@ -628,7 +628,19 @@ func (c *Ctx) dischargeIndex(s *panSite, fnBody ast.Node) string {
 		}
 	}
 	if hi != nil {
-		if k, ok := c.lenMinus(hi, bsrc); ok && k >= 0 {
+		if k, ok := c.ConstInt(hi); ok && k >= 0 {
+			// B[lo:k] with constants needs len >= k (and lo <= k); B[:0] needs nothing
+			lk := int64(0)
+			if lo != nil {
+				lk, _ = c.ConstInt(lo)
+			}
+			if lk > k {
+				okHi = false
+			}
+			if k > need {
+				need = k
+			}
+		} else if k, ok := c.lenMinus(hi, bsrc); ok && k >= 0 {
 			// hi = len-k needs len >= k and lo <= len-k
 			lk := int64(0)
 			if lo != nil {
